@@ -20,7 +20,8 @@ func init() {
 	})
 	register("C05", &propDef{
 		Title: "Pack never leaks outside content and always emits a slug Unpack accepts",
-		Rules: []func(*Checker){ruleC05Link, ruleC05Deref, rulePredSound("C05.pred"), ruleC05Pos, ruleC04Accept2("C05.accept"), rulePackerWriters("C05.allowlist"), ruleC04Relative("C05.relative")},
+		Rules: []func(*Checker){ruleC05Link, ruleC05Deref, rulePredSound("C05.pred"), ruleC05Pos, ruleC04Accept2("C05.accept"), rulePackerWriters("C05.allowlist"), ruleC04Relative("C05.relative"),
+			aliasRuleFiltered(ruleC16Readlink, "C16.readlink", "C05.chain", 1, func(o Oblig) bool { return !strings.Contains(o.Key, "(*slug.Packer).Pack/") })},
 		NotDecided: []string{
 			"content equality of dereferenced copies",
 			"behaviour of links that are in-tree on disk but whose targets are replaced during the walk",
